@@ -1193,6 +1193,7 @@ class RFBClient(Protocol):  # type: ignore[misc]
 
     # --- Pseudo Desktop Size Encoding
     def _handleDecodeDesktopSize(self, width: int, height: int) -> None:
+        self.width, self.height = width, height
         self.updateDesktopSize(width, height)
         self._doConnection()
 
